@@ -80,8 +80,9 @@ def run(run):
         rid = T.var_id(call["a"][0])
         if rid is None:
             return False
-        t = S.value(S.Sym(F).term(fn["body"]))
-        returned = {x[2] for x in S.subterms(t) if isinstance(x, tuple) and x and x[0] == "var"}
+        full = S.Sym(F).term(fn["body"])
+        outs = [S.value(full)] + [x[1] for x in S.subterms(full) if isinstance(x, tuple) and x and x[0] == "return"]
+        returned = {x[2] for o in outs for x in S.subterms(o) if isinstance(x, tuple) and x and x[0] == "var"}
         return rid in returned
 
     def flagged_slots(fn, adt, scrut_param=None):
